@@ -576,19 +576,26 @@ def run(chk, tier):
                 t.TIMEOUT = 150          # type inference of the 260-field record alone takes 10 s and more
     order = list(shapes)
     rnd.shuffle(order)
-    groups = [order[i:i + 6] for i in range(0, len(order), 6)]
+    # A constant of the library that the client reads through an ARCHIVE member crashes the client (open finding): the
+    # shapes with an identifier argument (the library constant kI) go into the groups whose library also exports constants
+    # of the types, and those groups are split with the library as .ao only; the other groups use .ao and .al.
+    with_id = [x for x in order if "id" in typeprogs.leaves(x)]
+    without = [x for x in order if "id" not in typeprogs.leaves(x)]
+    pad = len(with_id) % 6 and 6 - len(with_id) % 6
+    with_id, without = with_id + without[:pad], without[pad:]
+    groups_c = [with_id[i:i + 6] for i in range(0, len(with_id), 6)]
+    groups_n = [without[i:i + 6] for i in range(0, len(without), 6)]
     if quick:
-        groups = groups[:4]
-        rest = [x for x in order if not any(x in g for g in groups)]
-        for kind in ("int", "flt", "str", "id"):
+        groups_c, groups_n = groups_c[:2], groups_n[:2]
+        rest = [x for x in without if not any(x in g for g in groups_n)]
+        for kind in ("int", "flt", "str"):
             # TLC checks at the end of the trace that every leaf kind was performed; the deal has to provide for it
-            if not any(kind in typeprogs.leaves(x) for g in groups for x in g):
-                groups[0][-1] = [x for x in rest if kind in typeprogs.leaves(x)][0]
-    for gi, g in enumerate(groups):
-        # odd groups export constants of the types too and are split with the library as .ao only (see typeprogs.render)
-        j = Job(b, wd, "types_%d" % gi, typeprogs.render(g, consts=bool(gi % 2))[2], None)
+            if not any(kind in typeprogs.leaves(x) for g in groups_n for x in g):
+                groups_n[0][-1] = [x for x in rest if kind in typeprogs.leaves(x)][0]
+    for gi, (g, consts) in enumerate([(g, True) for g in groups_c] + [(g, False) for g in groups_n]):
+        j = Job(b, wd, "types_%d" % gi, typeprogs.render(g, consts=consts)[2], None)
         j.types = g
-        j.type_consts = bool(gi % 2)
+        j.type_consts = consts
         jobs.append(j)
     # fixed: one type, its constant read by the client from an archive member (open finding, kept visible)
     j = Job(b, wd, "types_al_const", typeprogs.render([{"args": [{"leaf": "int", "v": 1}]}], consts=True)[2], None)
@@ -667,7 +674,9 @@ def run(chk, tier):
     t1 = time.time()
     # ---- perform ----
     with concurrent.futures.ThreadPoolExecutor(max_workers=vlib.NCPU) as ex:
-        futs = [ex.submit(j.perform_level, q) for j in jobs for q in LEVELS]
+        # the wide units first: their commands are the longest (the 260-field record needs 10 s and more per command)
+        first = [j for j in jobs if j.wide == "rec"] + [j for j in jobs if j.wide is not None and j.wide != "rec"]
+        futs = [ex.submit(j.perform_level, q) for j in first + [j for j in jobs if j.wide is None] for q in LEVELS]
         sfuts = [(j, k, ex.submit(j.perform_split, k)) for j in jobs for k in range(len(j.splits))]
         for f in futs:
             f.result()
@@ -813,6 +822,19 @@ def run(chk, tier):
         corrupt_trace(trace, hook)
     if os.environ.get("VERIF_C05_KEEP"):          # development aid: keep the recorded trace
         shutil.copy(trace, os.environ["VERIF_C05_KEEP"])
+    # ---- the type section of every library built for the type-expression programs, read by TLC (meanwhile) ----
+    libs, seen_secs = [], set()
+    for j in jobs:
+        if j.types is not None:
+            for k, sr in enumerate(j.split_results):
+                sec = ao_section(sr["lib_ao"], "type") if sr.get("lib_ao") else None
+                if sec is not None and sec not in seen_secs:
+                    seen_secs.add(sec)
+                    libs.append(("%s/split%d/plib.ao" % (j.pid, k), sr["lib_ao"]))
+    # quick: one library with constants and identifier arguments, two without (all leaf kinds between them)
+    libs.sort(key=lambda x: (not x[0].startswith("types_0/"), x[0]))
+    tsec = concurrent.futures.ThreadPoolExecutor(max_workers=1)
+    fsec = tsec.submit(type_sections, chk, b, libs[:3 if quick else 40], wd, ["id", "int", "flt", "str"]) if libs else None
     r = vlib.tlc("TraceUnits", "TraceUnits", workers=1, env={"TRACE": trace}, timeout=900)
     chk.add_tlc("TraceUnits", r)
     if r.violated:
@@ -829,21 +851,9 @@ def run(chk, tier):
                                "reached": {"%s@%s" % k: {x["field"]: x["max"] for x in v if x["max"] > 255} for k, v in sorted(reached.items())}}
     if gaps:
         raise vlib.MachineryError("the performed units / splits do not reach what the codec specifications enumerate: %s" % gaps[:8])
-    # ---- the type section of every library built for the type-expression programs, read by TLC ----
-    libs = []
-    for j in jobs:
-        if j.types is not None:
-            for k, sr in enumerate(j.split_results):
-                if sr.get("lib_ao"):
-                    libs.append(("%s/split%d/plib.ao" % (j.pid, k), sr["lib_ao"]))
-    seen_libs, uniq = set(), []
-    for name, data in libs:
-        sec = ao_section(data, "type")
-        if sec is not None and sec not in seen_libs:
-            seen_libs.add(sec)
-            uniq.append((name, data))
-    if uniq:
-        type_sections(chk, b, uniq[:6 if quick else 40], wd, ["id", "int", "flt", "str"])
+    if fsec is not None:
+        fsec.result()
+    tsec.shutdown()
     chk.extra["type_programs"] = {"groups": len([j for j in jobs if j.types is not None]),
                                   "shapes_in_model": len(shapes), "shapes_performed": sum(len(j.types) for j in jobs if j.types is not None)}
 
